@@ -371,7 +371,8 @@ def floors(tier):
     return [('wide', n) for n in WIDE] + [('core', s, r) for s in 'su' for r in G.ROUNDINGS] + \
            [('register', op, way) for op in ('add', 'sub', 'mul') for way in ('out', 'same')] + [('resize-wrap',), ('register-rounded',)] + \
            [('wide-from-fixed-point', True), ('wide-from-fixed-point', False), ('resize-wrap-wide',), ('register-wide-upshift',), ('register-uu-coarser-subtrahend',),
-            ('register-function', 'dot'), ('register-function', 'one-variable'), ('register-from-wide-accumulator',)]
+            ('register-function', 'dot'), ('register-function', 'one-variable'), ('register-from-wide-accumulator',),
+            ('register-far-apart-fractions',), ('register-from-wide-source-dropping-bits',), ('register-through-view',)]
 
 
 # ------------------------------------------------------------------------------------------ workload
@@ -609,6 +610,71 @@ def run_case(case, ctx):
                         _try(lambda: rr_.__setitem__(slice(0, 2), Fxp(np.array([code_, 1], dtype=object), True, wa2, fa2, raw=True)))
                         _try(lambda: Fxp(None, sg_, nr_, fr_, overflow='wrap').equal(acc2))
                 ctx.floor_hit(('register-from-wide-accumulator',))
+        # (A) sums / differences of operands whose fraction lengths lie far apart, into a core register whose fraction length lies in between: the exact sum has
+        # more than 53 significant bits and its dropped bits are all ones (one LSB below a grid point) - a sum formed in doubles lands on the grid point
+        if mixed_digit == 1:
+            fxa = rng.randint(24, 30)
+            dd = rng.randint(8, 12)
+            nft = fxa - dd
+            a_hi = rng.randint(1, 2 ** (31 - dd) - 1)
+            cxa = (a_hi << dd) + (2 ** dd - 1)
+            cya = rng.choice([2 ** 30 - 1, 2 ** 30 - rng.randint(2, 99), rng.randint(2 ** 29, 2 ** 30)]) * rng.choice([1, -1])
+            xa_ = Fxp(cxa * rng.choice([1, -1]), True, 32, fxa, raw=True)
+            ya_ = Fxp(cya, True, 32, 0, raw=True)
+            for rr_ in ('floor', 'trunc', 'ceil', 'around'):
+                for fn in (fm.add, fm.sub):
+                    _try(lambda: fn(xa_, ya_, out=Fxp(None, True, rng.randint(40, 52), nft, overflow='wrap', rounding=rr_)))
+                    _try(lambda: fn(ya_, xa_, out_like=Fxp(None, True, rng.randint(24, 52), nft, overflow='wrap', rounding=rr_)))
+            xa_.config.op_out = Fxp(None, True, 48, nft, overflow='wrap', rounding='floor')
+            _try(lambda: xa_ + ya_)
+            ctx.floor_hit(('register-far-apart-fractions',))
+        # (B) sources of 64..96 bits whose python-integer codes have more than 53 significant bits but whose VALUE is small, moved into core wrap registers with
+        # fewer fraction bits by every route: the dropped bits decide the rounding (they must not pass through a double)
+        if mixed_digit == 2:
+            ww_ = rng.choice([64, 72, 96])
+            fw_ = ww_ - rng.randint(18, 28)
+            cw_ = rng.choice([1, -1]) * (((1 << (ww_ - 3)) + rng.getrandbits(ww_ - 4)) | 1)
+            drop_ = rng.randint(fw_ - 20, fw_ - 2)
+            lowones = (cw_ >> drop_ << drop_) + (2 ** drop_ - 1)         # dropped bits all ones
+            for code_w in (cw_, lowones):
+                srcw = _try(lambda: Fxp(code_w, True, ww_, fw_, raw=True))
+                srca = _try(lambda: Fxp(np.array([code_w, 1, -code_w], dtype=object), True, ww_, fw_, raw=True))
+                if srcw is None or srca is None:
+                    continue
+                for rr_ in ('trunc', 'floor', 'around', 'ceil'):
+                    nr_ = rng.choice([16, 24, 40, 52])
+                    fr_ = fw_ - drop_
+                    mkreg = lambda shp=None: Fxp(np.zeros(shp) if shp else None, rng.random() < 0.7, nr_, fr_, overflow='wrap', rounding=rr_)
+                    _try(lambda: mkreg().equal(srcw))
+                    _try(lambda: Fxp(srcw, like=mkreg()))
+                    _try(lambda: srcw.like(mkreg()))
+                    _try(lambda: mkreg()(srcw))
+                    _try(lambda: mkreg((3,)).set_val(srca))
+                    _try(lambda: mkreg((3,)).equal(srca))
+                    _try(lambda: Fxp(srca, like=mkreg()))
+            ctx.floor_hit(('register-from-wide-source-dropping-bits',))
+        # (C) chained indexed assignment into an UNSIGNED 2-dimensional wrap register: the element / row object performs the store, the register keeps the residue
+        # of its own (unsigned) word.  Workload-level comparison (the store event only sees the element object)
+        if qxq_digit == 1 and mixed_digit != 1 and not wide:
+            nu_ = rng.randint(4, 24)
+            fu_ = rng.choice([0, 0, 2])
+            regu = Fxp(np.zeros((2, 3)), False, nu_, fu_, overflow='wrap', rounding=r)
+            vals_ = [float(rng.randint(2 ** (nu_ - 1), 2 ** nu_ - 1)) / 2 ** fu_, -float(rng.randint(1, 2 ** nu_)) / 2 ** fu_, float(rng.randint(2 ** nu_, 2 ** (nu_ + 2))) / 2 ** fu_]
+            try:
+                regu[0][1] = vals_[0]
+                regu[1][2] = vals_[1]
+                rowu = regu[1]
+                rowu[0] = vals_[2]
+                got_ = np.asarray(regu.val, dtype=object).tolist()
+                for (a_, b_), v_ in (((0, 1), vals_[0]), ((1, 2), vals_[1]), ((1, 0), vals_[2])):
+                    want_ = R.wrap(R.round_exact(F(v_) * F(2) ** fu_, r), False, nu_)
+                    if int(got_[a_][b_]) != want_:
+                        ctx.violation('not_residue', 'fxp-u%d/%d %s/wrap: reg[%d][%d] = %s left code %r in the register, the residue of the rounded input is %d' % (
+                            nu_, fu_, r, a_, b_, v_, got_[a_][b_], want_), key='wrap.through_view')
+                ctx.judged(('register-through-view', G.word_class(nu_), r), True, None)
+                ctx.floor_hit(('register-through-view',))
+            except Exception as e_:
+                ctx.violation('raises', 'chained indexed assignment into an unsigned wrap register raised %s' % type(e_).__name__, key='wrap.raises')
         # stored results (fixed-point objects, scalars and lopsided arrays) moved into wrap registers of 64+ bits with more fraction bits, by every route
         if wide:
             ws_ = rng.randint(16, 44)
